@@ -14,9 +14,12 @@ import json,re
 s=json.load(open('$d/meta.json'))['demo']
 s=re.sub(r'git( -C \\S+)? apply [^&;]*(&&|;)', '', s)
 s=re.sub(r'\\s{2,}\\(.*\\)\\s*\$', '', s)
+import os
+if os.path.exists('$d/demo_override.txt'): s=open('$d/demo_override.txt').read().strip()
+s=re.sub(r'(?<![A-Za-z_])TREE(?![A-Za-z_])', '$wt', s)
 print(s)")"
 run_demo() { # demo fails if its exit status is non-zero or its output has a Go test FAIL line
-  out="/tmp/confirm/$id.demo"; ( cd "$d" && sh -c "$(printf '%s' "$demo" | sed "s#TREE#$wt#g")" ) >"$out" 2>&1; rc=$?
+  out="/tmp/confirm/$id.demo"; ( cd "$d" && sh -c "$demo" ) >"$out" 2>&1; rc=$?
   cat "$out" >>"$log"; if grep -qE '^(FAIL|--- FAIL|exit status [1-9])' "$out"; then rc=1; fi; rm -f "$out"; return $rc; }
 suite() { ( cd "$wt" && go test -vet=off -count=1 ./... 2>&1 | grep -E '^(ok|FAIL|---)' | sed -E 's/\t[0-9.]+s//; s/\(cached\)//' | sort ) ; }
 echo "== demo on unchanged tree" >>"$log"; run_demo; clean_rc=$?
